@@ -7,6 +7,7 @@ import (
 	"math/rand"
 	"net/smtp"
 	"strings"
+	"sync"
 	"text/template"
 	"time"
 
@@ -23,8 +24,27 @@ func NewSMTPMailer(server string, auth smtp.Auth) *SMTPMailer {
 	if len(server) == 0 {
 		panic("SMTP Mailer must be created with a server string.")
 	}
-	random := rand.New(rand.NewSource(time.Now().UnixNano()))
+	random := rand.New(&lockedSource{src: rand.NewSource(time.Now().UnixNano())})
 	return &SMTPMailer{server, auth, random}
+}
+
+// lockedSource makes a rand.Source safe for concurrent use: the mailer is
+// shared by the goroutines that send e-mails.
+type lockedSource struct {
+	mu  sync.Mutex
+	src rand.Source
+}
+
+func (l *lockedSource) Int63() int64 {
+	l.mu.Lock()
+	defer l.mu.Unlock()
+	return l.src.Int63()
+}
+
+func (l *lockedSource) Seed(seed int64) {
+	l.mu.Lock()
+	defer l.mu.Unlock()
+	l.src.Seed(seed)
 }
 
 // SMTPMailer uses smtp to actually send e-mails
